@@ -887,8 +887,8 @@ def server_thread_directed(ctx, point: tuple[str, int], y: str) -> str | None:
 
     def at_pause():
         o = threading.Thread(target=other, daemon=True)
-        others.append(o)
         o.start()
+        others.append(o)  # (only started threads are listed: the main thread joins them)
         other_done.wait(0.4)
 
     started = threading.Event()
